@@ -454,16 +454,22 @@ def m2(ctx):
     # unflatten stack machine: slice start and resize use the same expression
     for g in _insts(prog, 'PyTreeSpec::UnflattenImpl') + _insts(prog, 'PyTreeSpec::WalkImpl'):
         mk = calls_in(g.body, {'MakeNode'})
-        rs = [c for c in calls_in(g.body, {'resize'}) if (member_path(c.call_base()) or '') == 'agenda']
         ok = False
-        if mk and rs:
+        if mk:
             a = mk[0].call_args()
             start = None
+            cont = None
             for s in a[1].walk():
                 if s.kind == 'CXXOperatorCallExpr' and s.callee_name() == 'operator[]':
                     start = s.kids[2].text(4)
-            ok = start is not None and start == rs[0].call_args()[0].text(4) and \
-                member_path(a[2]) == 'node.arity'
+                    cont = member_path(s.kids[1])
+            # the work list that is sliced is the one that is cut back
+            rs = [c for c in calls_in(g.body, {'resize'})
+                  if cont is not None and (member_path(c.call_base()) or '') == cont]
+            ar = strip_casts(a[2])
+            ok = start is not None and bool(rs) and start == rs[0].call_args()[0].text(4) and \
+                ar is not None and ar.kind == 'MemberExpr' and ar.name == 'arity' and \
+                member_path(ar.kids[0]) == member_path(strip_casts(a[0]))
         ctx.check('%s/stack' % short(g), ok,
                   '%s: a node consumes agenda[size - arity ..] and the agenda is cut back to '
                   'size - arity (same expression), then the result is pushed' % inst(g),
@@ -504,22 +510,41 @@ def m3(ctx):
 
 # ---------------------------------------------------------------------------------------------
 def _slice_idiom(prog, f):
-    """normalised (node read, copy range, pos update, guard) of the child-range computation"""
+    """normalised (node read, copy range, pos update, guard) of the child-range computation; the
+    cursor and the node reference are found by their role (the local that is decremented by a
+    node count; the Node reference read at cursor - 1) and spelled POS / NODE in the result"""
     out = {'node': None, 'copy': None, 'update': None, 'guard': None}
+    pos = None
     for n in f.body.walk():
-        if n.kind == 'VarDecl' and n.name == 'node' and n.kids:
-            out['node'] = n.kids[-1].text(6)
-        if n.kind == 'CompoundAssignOperator' and member_path(n.kids[0]) == 'pos':
-            out['update'] = '%s %s' % (n.op, n.kids[1].text(4))
+        if n.kind == 'CompoundAssignOperator' and n.op == '-=' and 'num_nodes' in n.kids[1].text(4):
+            pos = member_path(n.kids[0])
+    if pos is None:
+        return out
+    node = None
+    for n in f.body.walk():
+        if n.kind == 'VarDecl' and n.kids and 'Node' in (n.type or '') and \
+                re.search(r'\b%s\b' % re.escape(pos), n.kids[-1].text(6)):
+            node = n.name
+
+    def norm(t):
+        t = re.sub(r'\b%s\b' % re.escape(pos), 'POS', t)
+        if node:
+            t = re.sub(r'\b%s\b' % re.escape(node), 'NODE', t)
+        return t
+    for n in f.body.walk():
+        if n.kind == 'VarDecl' and n.name == node and n.kids:
+            out['node'] = norm(n.kids[-1].text(6))
+        if n.kind == 'CompoundAssignOperator' and member_path(n.kids[0]) == pos:
+            out['update'] = norm('%s %s' % (n.op, n.kids[1].text(4)))
     for c in calls_in(f.body, {'copy'}):
         a = c.call_args()
         if len(a) >= 2:
-            out['copy'] = (a[0].text(8), a[1].text(8))
+            out['copy'] = (norm(a[0].text(8)), norm(a[1].text(8)))
     cfg = cfg_of(f)
     for cn in cfg.nodes:
         if cn.kind == 'cond' and cn.ast is not None:
-            t = cn.ast.text(6)
-            if 'pos' in t and 'num_nodes' in t:
+            t = norm(cn.ast.text(6))
+            if 'POS' in t and 'num_nodes' in t:
                 out['guard'] = t
     return out
 
@@ -529,7 +554,7 @@ def m6(ctx):
     prog = ctx.cxx()
     a = _slice_idiom(prog, prog.one('PyTreeSpec::Children'))
     b = _slice_idiom(prog, prog.one('PyTreeSpec::Child'))
-    want = {'node': None, 'copy': None, 'update': '-= node.num_nodes', 'guard': None}
+    want = {'node': None, 'copy': None, 'update': '-= NODE.num_nodes', 'guard': None}
     for k in ('node', 'copy', 'update', 'guard'):
         ok = a[k] is not None and a[k] == b[k]
         if k == 'update':
@@ -539,8 +564,8 @@ def m6(ctx):
                   'Children() uses %s = %s, Child() uses %s' % (k, a[k], b[k]),
                   prog.one('PyTreeSpec::Child').loc)
     # the copied range is [pos - num_nodes, pos)
-    ok = a['copy'] is not None and 'pos' in a['copy'][0] and 'num_nodes' in a['copy'][0] and \
-        'num_nodes' not in a['copy'][1] and 'pos' in a['copy'][1]
+    ok = a['copy'] is not None and 'POS' in a['copy'][0] and 'num_nodes' in a['copy'][0] and \
+        'num_nodes' not in a['copy'][1] and 'POS' in a['copy'][1]
     ctx.check('Children/range', ok, 'the child range is [pos - node.num_nodes, pos)',
               'the child range is %s' % (a['copy'],), prog.one('PyTreeSpec::Children').loc)
 
@@ -860,23 +885,38 @@ def n1(ctx):
     # accessor construction: path_entry_type(entry, node_type, node_kind) of the parent
     for f in _insts(prog, 'PyTreeSpec::AccessorsImpl'):
         inits = local_inits(f)
-        lam = [l for l in prog.lambdas_of(f)]
-        ok = False
-        for l in lam:
+        # the parent node: the local reference to a Node this activation works on
+        roots = [v.name for v in f.body.find('VarDecl') if 'Node' in (v.type or '') and '&' in (v.type or '')]
+        ctx.require(len(roots) >= 1, '%s: no local reference to the parent node' % inst(f))
+        R = roots[0]
+
+        def from_root(init, what):
+            if init is None:
+                return False
+            if what == 'kind':
+                return member_path(strip_casts(init)) == R + '.kind'
+            return any(c.callee_name() == what and c.call_args() and member_path(c.call_args()[0]) == R
+                       for c in calls_in(init))
+        ok = ok2 = False
+        for l in prog.lambdas_of(f):
+            lparams = [p_[0] for p_ in l.params]
             for c in l.body.find('CXXOperatorCallExpr'):
-                if c.callee_name() == 'operator()' and len(c.kids) == 5:
-                    names = [member_path(strip_casts(x)) for x in c.kids[1:]]
-                    if names == ['path_entry_type', 'entry', 'node_type', 'node_kind']:
-                        ok = True
-        t_init = inits.get('node_type')
-        k_init = inits.get('node_kind')
-        p_init = inits.get('path_entry_type')
-        ok2 = t_init is not None and any(c.callee_name() == 'GetType' and
-                                          member_path(c.call_args()[0]) == 'root'
-                                          for c in calls_in(t_init)) and \
-            k_init is not None and member_path(strip_casts(k_init)) == 'root.kind' and \
-            p_init is not None and any(c.callee_name() == 'GetPathEntryType' and
-                                       member_path(c.call_args()[0]) == 'root' for c in calls_in(p_init))
+                if c.callee_name() != 'operator()' or len(c.kids) != 5:
+                    continue
+                callee, ent, typ, knd = [member_path(strip_casts(x)) for x in c.kids[1:]]
+                if callee not in lparams or ent not in lparams:
+                    continue
+                # type and kind are captured locals computed from the parent node
+                ok = from_root(inits.get(typ), 'GetType') and from_root(inits.get(knd), 'kind')
+                # every call of the lambda hands it the parent's path entry class
+                j_ = lparams.index(callee)
+                sites = [x for x in f.body.find('CXXOperatorCallExpr')
+                         if x.callee_name() == 'operator()' and len(x.kids) >= 2 and
+                         prog.lambda_func(f, x.kids[1]) is None and
+                         'lambda' in (x.kids[1].type or '') and len(x.kids) - 2 > j_]
+                ok2 = bool(sites) and all(
+                    from_root(inits.get(member_path(strip_casts(x.kids[2 + j_]))), 'GetPathEntryType') or
+                    from_root(x.kids[2 + j_], 'GetPathEntryType') for x in sites)
         ctx.check('AccessorsImpl/typed-with-parent', ok and ok2,
                   '%s builds each entry as path_entry_type(entry, type, kind) with all three taken '
                   'from the parent node' % inst(f),
